@@ -47,6 +47,7 @@ reads included -, ALL byte contents):
 -/
 namespace Txdbus.Proto
 open Txdbus.Gen.ProtoConst
+open Txdbus.Proto.Receive
 
 variable {α : Type}
 
